@@ -10,7 +10,7 @@ from ..models import KEYS
 from ..observe import observe, fresh
 from ..refs import components
 
-N_RANDOM = {"quick": 1000, "thorough": 15000}
+N_RANDOM = {"quick": 1000, "thorough": 40000}
 N_EXH = 2 ** 15  # every hypergraph on 4 fixed nodes (all 32768 sets of non-empty hyperedges), thorough tier only
 TIERS = {"quick": N_RANDOM["quick"], "thorough": N_RANDOM["thorough"] + N_EXH}
 EXHAUSTIVE = {"quick": False, "thorough": True}
